@@ -64,7 +64,7 @@ static long kvl(const char *key, long def) { const char *v = kv(key); return v ?
 static unsigned long long kvu(const char *key, unsigned long long def) { const char *v = kv(key); return v ? strtoull(v, NULL, 0) : def; }
 unsigned char *kx_hexarg(const char *s, size_t *len) { if (!s || !strcmp(s, "-")) { *len = 0; return vh_exact("", 0); } { size_t n; unsigned char *p = vh_unhex(s, &n); unsigned char *q = vh_exact(p, n); free(p); *len = n; return q; } }
 
-static void logcb(void *c, int level, const char *msg) { (*(unsigned long *)c)++; if (getenv("KX_LOG")) fprintf(stderr, "LOG[%d] %s\n", level, msg); }
+static void logcb(void *c, int level, const char *msg) { (*(unsigned long *)c)++; if (getenv("KX_LOG")) { fprintf(stderr, "LOG[%d] %s\n", level, msg); if (getenv("KX_LOG")[0] == '2') printf("# LOG[%d] %s\n", level, msg); } }
 
 static const KSI_Policy *policy_by_name(const char *n) {
 	if (!strcmp(n, "internal")) return KSI_VERIFICATION_POLICY_INTERNAL;
@@ -114,6 +114,7 @@ static int cmd_verify(void) {
 		if (kv("pubfile")) vc.userPublicationsFile = pubfiles[kvl("pubfile", 0)];
 		rc = KSI_SignatureVerifier_verify(pol, &vc, &res);
 		out_result(res);
+		if (rc != KSI_OK) { int ext = 0; char buf[400]; size_t i; KSI_ERR_getBaseErrorMessage(c, buf, sizeof buf, &ext, NULL); for (i = 0; buf[i]; i++) if (buf[i] == ' ' || buf[i] == '\n') buf[i] = '_'; kx_out(" msg=%s", buf[0] ? buf : "-"); }
 		KSI_PolicyVerificationResult_free(res);
 		vc.signature = NULL; vc.documentHash = NULL; vc.userPublication = NULL; vc.userPublicationsFile = NULL;
 		KSI_VerificationContext_clean(&vc);
